@@ -151,7 +151,7 @@ PROPS = {
     },
     "C10": {
         "functions": ["StreamWriter::poll_write", "Request::poll_output (lock across a partially written reply)", "RepeatableLockFuture::{new,poll}", "RecordHeader::{set_lengths,to_bytes,padding_bytes}", "futures_util::lock::Mutex (uncontended)"],
-        "bounds": "one writer (Stdout|Stderr, any id), payload of 3 and 8 (thorough 9) symbolic bytes; the transport checks EVERY vectored write against the one expected record (offered bytes == exactly the unsent rest: header, payload, zero padding) and accepts any 1..n bytes with <= 3 short writes (cuts inside the header, at both seams, inside the padding) and <= 1 Pending; the output lock is held at every Pending and free after completion",
+        "bounds": "one writer (Stdout|Stderr, any id), payload of 3 and 8 (thorough 9) symbolic bytes; the transport checks EVERY vectored write against the one expected record (offered bytes == exactly the unsent rest: header, payload, zero padding) and accepts any 1..n bytes with <= 3 short writes (cuts inside the header, at both seams, inside the padding) and <= 1 Pending, after which the caller may come back with a buffer 2 bytes longer (the record still carries exactly the announced bytes and the announced length is reported); the output lock is held at every Pending and free after completion",
         "outside": "several writers on separately polled tasks (exclusion is checked as 'lock held while a record is in progress' - for StreamWriter records in c10_writer_*, for management replies written by poll_output from a mid-reply start state in c10_glue_reply_lock - not by interleaving two writers); payloads > 9 bytes incl. the 65535 cap (set_lengths and try_into().unwrap_or(u16::MAX) are covered for all u16 by c17_set_lengths only); poll_flush; real threads",
         "assumptions": [E7, E8, "nowaiters: the futures Mutex is never contended in a single-task harness (proved unreachable)"],
         "level_text": "Bounded model checking: for every split of the vectored writes the bytes reaching the transport are exactly one well-formed record with the written payload, the write reports the payload length, and the mutex guard spans the whole record.",
@@ -167,7 +167,7 @@ PROPS = {
     },
     "C12": {
         "functions": ["Request::poll_input (EOF / read error)", "Request::poll_output (write error / zero-length write)", "StreamWriter::poll_write (write error / zero-length write)", "Token::parse_request (EOF / read error)", "From<parser::Error> for io::Error", "Request::record_boundary (EOF, fatal errors, no false EOF)"],
-        "bounds": "glue harnesses of C08/C09: transport EOF or error after <= 2 reads at any point: poll_read fails with UnexpectedEof resp. the transport's error and never returns a successful empty read unless the stream ended; parse_request fails with ConnectionReset resp. the transport's error and never hands out a request after EOF/error; no spinning (bounded polls with unwinding assertions); write faults: c12_glue_write_fault (poll_output: error or Ok(0) at the 1st or 2nd write call) and c12_writer_fault_3 (StreamWriter: at the 1st..3rd vectored write)",
+        "bounds": "glue harnesses of C08/C09: transport EOF or a one-shot error (BrokenPipe or Interrupted) after <= 2 reads at any point; at every exit the bytes handed to the parser are exactly the bytes read; poll_read fails with UnexpectedEof resp. the transport's error and never returns a successful empty read unless the stream ended; parse_request fails with ConnectionReset resp. the transport's error and never hands out a request after EOF/error; no spinning (bounded polls with unwinding assertions); write faults: c12_glue_write_fault (poll_output: error or Ok(0) at the 1st or 2nd write call) and c12_writer_fault_3 (StreamWriter: at the 1st..3rd vectored write)",
         "outside": "write faults inside close() / parse_request's write_all (futures_util) are not injected; whole Token::run termination; EOF at every byte offset of a real byte stream is replaced by EOF at every point of the contract-level execution",
         "assumptions": [E2, E7, E8, "parser contract stubs (see C08)"],
         "level_text": "Bounded model checking of the fault handling of the glue for every parser behaviour: read side (EOF / error at any point of the contract-level execution) and write side (error or zero-length write at the 1st..3rd write call of a management reply resp. an output record: the operation ends with that error / WriteZero, never Pending or success, nothing is offered to the transport afterwards, and what was offered before is a prefix of the expected record).",
